@@ -186,6 +186,9 @@ for k, fs, lab in [("bool_u8_i8", ["deserialize_bool", "deserialize_u8", "deseri
                    ("enum", ["deserialize_enum", "EnumAccess::variant_seed", "VariantAccess::*"], "bounded(input<=7 bytes; probe enum needs at most 7)")]:
     K("C03.K.dec." + k, C03M, "verif_c03::dec_" + k, {"C03": "D"}, label=lab, needs=(REF, PROBES), fns=[DES + f for f in fs] + ["postcard::take_from_bytes"],
       note="take_from_bytes on EVERY byte string up to the stated length: accept/reject, value, remainder, error kind == reference decoder")
+K("C03.K.dec.str_long", C03M, "verif_c03::dec_str_long", {"C03": "D"}, needs=(REF, PROBES), fns=[DES + "deserialize_str", DES + "deserialize_string"],
+  label="bounded(body<=99 bytes over ASCII u {0xFF}, single-byte length prefix; core::str::from_utf8 stubbed by its specification on that alphabet)",
+  note="str contract for LONG strings: accept iff fits and valid, value in place, remainder, error kinds")
 K("C03.K.dec.char_accepts_valid", C03M, "verif_c03::dec_char_accepts_valid", {"C03": "D"}, needs=(REF, PROBES), fns=[DES + "deserialize_char"],
   note="every scalar's encoding (+ any tail byte) is accepted and returns that scalar")
 for k, tier in [("enum", "quick"), ("tuple", "quick"), ("i64", "quick"), ("option", "quick"), ("struct", "thorough")]:
@@ -196,7 +199,9 @@ K("C03.K.flavor.slice", DF, "verif_deflavor::slice_contract", {"C03": "D", "C04"
   fns=["postcard::de::flavors::Slice::new", "postcard::de::flavors::Slice::pop", "postcard::de::flavors::Slice::try_take_n", "postcard::de::flavors::Slice::finalize", "postcard::de::flavors::Slice::size_hint"],
   note="Hoare triple over a symbolic window: pop / try_take_n(any ct) / finalize results, cursor movement, returned slices at the exact input address; every dereference checked by CBMC")
 C04M = "postcard/src/lib.rs::verif_c04"
-for k, lab in [("struct", "bounded(input<=18 = max encoding of the probe struct)"), ("borrowed", "bounded(input<=6)"), ("scalars", "complete"), ("seq", "bounded(input<=8)")]:
+for k, lab in [("struct", "bounded(input<=18 = max encoding of the probe struct)"), ("borrowed", "bounded(input<=6)"), ("scalars", "complete"), ("seq", "bounded(input<=8)"),
+               ("kinds", "bounded(input<=7 = longest encoding of the probe enum)"),
+               ("char", "bounded(input<=6, a char needs at most 5)")]:
     K("C04.K.total." + k, C04M, "verif_c04::total_" + k, {"C04": "D"}, label=lab, needs=(REF, PROBES),
       fns=["postcard::take_from_bytes", "postcard::de::deserializer::*", "postcard::de::flavors::Slice::*"],
       note="no panic / overflow / out-of-bounds access on every byte string; remainder and borrowed fields lie inside the input")
@@ -242,6 +247,14 @@ K("C06.K.cobs.step_slice", CB, "verif_cobs::cobs_step_slice", {"C06": "D", "C05"
   note="Cobs<Slice>::try_push from an ARBITRARY state satisfying the representation invariant == one step of the abstract encoder machine (zero byte / data byte / 254-block), BufferFull thresholds, frame; loop-free")
 K("C06.K.cobs.new_finalize_slice", CB, "verif_cobs::cobs_new_finalize_slice", {"C06": "D", "C05": "D", "C20": "S"}, group=GCOBS, fns=COBSF,
   note="try_new reserves one code byte with the default state; finalize patches the code byte, appends exactly one 0x00, from an arbitrary state")
+K("C06.K.cobs.extend1_slice", CB, "verif_cobs::cobs_extend1_slice", {"C06": "D", "C05": "D", "C20": "S"}, group=GCOBS,
+  fns=["postcard::ser::flavors::<impl Flavor for Cobs<B>>::try_extend (trait default on the pinned tree)"],
+  note="the step contract of C06.K.cobs.step_slice when the byte arrives through try_extend(&[d]), from an ARBITRARY state")
+for _n in ["n1", "n253", "n254"]:
+    K("C06.K.cobs.extend_equals_pushes." + _n, CB, "verif_cobs::cobs_extend_equals_pushes_" + _n, {"C06": "D", "C05": "D", "C20": "S"}, group=GCOBS,
+      fns=["postcard::ser::flavors::<impl Flavor for Cobs<B>>::try_extend (trait default on the pinned tree)"],
+      label="bounded(block<=3 bytes, encoder state ci=0 and run length " + _n[1:] + ", fixed initial buffer)",
+      note="Flavor::try_extend contract for Cobs<Slice>: == byte-wise pushes (result, encoder state, buffer), frame")
 K("C06.K.cobs.step_hvec", CB, "verif_cobs::cobs_step_hvec", {"C06": "S", "C20": "D"}, group=GCOBS, label="bounded(B=6)", fns=COBSF,
   note="same step contract over HVec storage: the transformation does not depend on the innermost storage")
 for l, what in [("cobs_flavor_correct", "finalize(run(init, msg)) == cobs(msg) ++ [0] for EVERY message of every length (induction): this settles all run lengths around multiples of 254"),
@@ -392,6 +405,9 @@ for v in ["unit", "newtype"]:
 for v in ["unit", "newtype", "tuple", "struct1", "struct2"]:
     K("C14.K.derive.flat_" + v, C14M, "verif_c14::d_flat_" + v, {"C14": "D"}, label="bounded(corpus)", fns=["postcard_derive::schema (derive output)"],
       note="derive corpus, enum variant forms incl. one- and two-field struct variants and tuple variants, checked with a non-recursive one-level conformance checker (leaf payloads)", **SCH)
+for v in ["struct", "v0", "v1", "v2", "v3", "v4"]:
+    K("C14.K.derive.names_" + v, C14M, "verif_c14::d_names_" + v, {"C14": "D"}, label="bounded(corpus)", fns=["postcard_derive::schema (derive output)"],
+      note="derive corpus, identifier handling: field / variant names starting with r, _, upper case, with digits, and raw identifiers (r#type) must equal the names serde writes", **SCH)
 
 # C16: no Kani obligation. CBMC does not constant-propagate through the &'static schema references and unwinds the recursive
 # hashers over all 26 kinds at every level (no verdict even for depth-2 concrete trees in 5 min, measured). The Route-V stubs
@@ -451,7 +467,7 @@ for f, what in [("try_new", "fresh Cobs over an empty storage is the initial mac
       witness="C06.K.cobs.*_slice", note=what)
 V("C06.V.flavor.whole_message", "cobsflavor", "encode_all", {"C06": "D", "C20": "D"}, kind="L",
   note="exec driver over the real flavour: pushing any message byte by byte and finalizing yields cobs(msg) ++ [0] - for every message length and every storage satisfying the contract")
-V("C06.V.flavor.try_extend", "cobsflavor", "Cobs::try_extend", {"C06": "S", "C20": "S"}, fns=["postcard::ser::flavors::<impl Flavor for Cobs<B>>::try_extend (only if an override exists)"],
+V("C06.V.flavor.try_extend", "cobsflavor", "Cobs::try_extend", {"C06": "D", "C20": "S"}, witness="C06.K.cobs.extend*", fns=["postcard::ser::flavors::<impl Flavor for Cobs<B>>::try_extend (only if an override exists)"],
   note="OPTIONAL item: absent on the pinned tree (trait default used); if an override appears it must equal byte-wise pushes", kind="O")
 
 # ---------------------------------------------------------------- varint readers, Route V (generic over the deserialization flavour contract)
